@@ -200,6 +200,22 @@ func c10buildParent(c *Ctx, r *mon.Rand, kind, decoded int, rec *mon.Recorder) *
 			p.fields = ParentFields{Kind: refcose.PCountersignature, Prot: l.protContent, Payload: sig}
 		}
 	}
+	if decoded == 0 && r.Intn(4) == 0 {
+		// a constructed parent that went through a deep-copy helper: its raw header fields are empty but
+		// not nil (append([]byte{}, nil...)); such fields mean "not set"
+		emptyRaw := func(h *cose.Headers) { h.RawProtected, h.RawUnprotected = []byte{}, []byte{} }
+		switch x := p.ptr.(type) {
+		case *cose.Sign1Message:
+			emptyRaw(&x.Headers)
+		case *cose.SignMessage:
+			emptyRaw(&x.Headers)
+		case *cose.Signature:
+			emptyRaw(&x.Headers)
+		case *cose.Countersignature:
+			emptyRaw(&x.Headers)
+		}
+		p.name += "+empty-raw-fields"
+	}
 	return p
 }
 
